@@ -58,6 +58,7 @@ type Lock struct {
 	Covers      map[string]map[string]string `json:"covers"`      // property -> obligation -> "sat" (reachable on the reference tree; thorough tier)
 	Sigs        map[string]*FuncSig          `json:"signatures"`  // function -> names of parameters, results and locals on the reference tree
 	Structs     map[string][]string          `json:"structs"`     // named struct type of the module -> "field type" per field, in order, on the reference tree
+	Funcs       map[string]string            `json:"functions"`   // function or method of the module ("pkgpath::rel") -> receiver, parameter and result types on the reference tree
 }
 
 func loadLock(path string) *Lock {
@@ -179,6 +180,7 @@ func checkMain(args []string) int {
 		lk := loadLock(filepath.Join(*root, "obligations.lock"))
 		v.lockSigs = lk.Sigs
 		lockStructs = lk.Structs
+		v.detectRenames(lk.Funcs)
 	}
 	pr, err := v.generateProperty(id)
 	if err != nil {
@@ -652,6 +654,7 @@ func checkMain(args []string) int {
 				lock.Sigs[fnName] = sg
 			}
 			lock.Structs = v.moduleStructs()
+			lock.Funcs = v.moduleFuncTable()
 			if *tier == "thorough" {
 				cm := map[string]string{}
 				for _, cv := range covers {
